@@ -423,8 +423,12 @@ def observe(s, probes):
         try:
             geo = s.laser.get_geometry()
             hs = [float(g.height) for g in geo]
+            # placement of every segment in the laser frame (start z from its transform) -> tiling summary
+            segs = sorted((float(Point3D(0, 0, 0).transform(g.to(s.laser)).z), float(g.height)) for g in geo if g.parent is s.laser)
+            gaps = sum(abs(segs[i + 1][0] - (segs[i][0] + segs[i][1])) for i in range(len(segs) - 1))
             out.append(("laser_geometry", np.array([float(len(geo)), float(sum(hs)), float(max([g.radius for g in geo] or [0.0])),
-                                                    float(sum(1 for g in geo if g.parent is s.laser))])))
+                                                    float(sum(1 for g in geo if g.parent is s.laser)),
+                                                    segs[0][0] if segs else 0.0, (segs[-1][0] + segs[-1][1]) if segs else 0.0, 1.0 + gaps])))
         except Exception as e:  # noqa
             out.append(("laser_geometry", ("exc", type(e).__name__, str(e)[:200])))
     return out
